@@ -44,12 +44,5 @@ GNext ==
 
 GView == <<gvars, ivars>>
 EmitEdge == (pc = "end" /\ pc' = "idle") => PrintT("BEH " \o ToJson(hist'))
-\* Variant for Gen_cover_tunnel.cfg: `hf` remembers that an injected IPAM failure actually hit a call (so a
-\* confirmed leak stayed queued); only histories in which that happened are printed.
-VARIABLE hf
-GInitF == GInit /\ hf = FALSE
-GNextF == GNext /\ hf' = (hf \/ (pc = "end" /\ ~cur.clean))
-GViewF == <<gvars, ivars, hf>>
-EmitEdgeFail == (pc = "end" /\ pc' = "idle" /\ hf') => PrintT("BEH " \o ToJson(hist'))
 EmitAtLen == Len(hist) = SimLen + 1 => PrintT("BEH " \o ToJson(hist))
 =============================================================================
